@@ -8,7 +8,7 @@ use libcnb::data::store::Store;
 use libcnb::detect::{DetectContext, DetectResult, DetectResultBuilder};
 use libcnb::generic::{GenericMetadata, GenericPlatform};
 use libcnb::sbom::Sbom;
-use libcnb::{Buildpack, Error, Platform, Target, buildpack_main};
+use libcnb::{Buildpack, Error, Platform, Target};
 use serde_json::{Value, json};
 use std::io::Write;
 use std::os::unix::ffi::OsStrExt;
@@ -197,4 +197,32 @@ impl Buildpack for TestBuildpack {
     }
 }
 
-buildpack_main!(TestBuildpack);
+/// a second buildpack driven by the same process before the one under test (a host program that runs several
+/// buildpacks, a test binary): nothing of it may show in the later call
+struct PrimingBuildpack;
+impl Buildpack for PrimingBuildpack {
+    type Platform = GenericPlatform;
+    type Metadata = GenericMetadata;
+    type Error = BpError;
+    fn detect(&self, _context: DetectContext<Self>) -> libcnb::Result<DetectResult, Self::Error> {
+        DetectResultBuilder::fail().build()
+    }
+    fn build(&self, _context: BuildContext<Self>) -> libcnb::Result<BuildResult, Self::Error> {
+        BuildResultBuilder::new().build()
+    }
+}
+
+fn main() {
+    if let Some(decoy) = std::env::var_os("VERIF_BP_PRIME") {
+        let decoy = PathBuf::from(decoy);
+        let real = std::env::var_os("CNB_BUILDPACK_DIR");
+        // (single-threaded at this point)
+        unsafe { std::env::set_var("CNB_BUILDPACK_DIR", &decoy) };
+        let _ = libcnb::libcnb_runtime_detect(&PrimingBuildpack, libcnb::DetectArgs { platform_dir_path: decoy.clone(), build_plan_path: decoy.join("plan.toml") });
+        match real {
+            Some(v) => unsafe { std::env::set_var("CNB_BUILDPACK_DIR", v) },
+            None => unsafe { std::env::remove_var("CNB_BUILDPACK_DIR") },
+        }
+    }
+    libcnb::libcnb_runtime(&TestBuildpack);
+}
